@@ -3,6 +3,7 @@ package main
 // Evaluation of Go expressions over symbolic state; lvalue assignment.
 
 import (
+	"os"
 	"fmt"
 	"go/ast"
 	"go/constant"
@@ -89,6 +90,10 @@ func (vc *VC) assumeRefFacts(st *State, v Val) {
 		case *types.Pointer, *types.Interface:
 			if isAtom(v.S) || strings.HasPrefix(v.S, "(select ") {
 				f := fmt.Sprintf("(forall ((k_al Int)) (! (or (<= (select (arr_%s %s) k_al) 0) (select %s (select (arr_%s %s) k_al))) :pattern ((select (arr_%s %s) k_al))))", v.Sort, v.S, st.alloc, v.Sort, v.S, v.Sort, v.S)
+				if vc.onlyPointers(u.Elem()) {
+					// no boxed values: a pointer, or an interface all of whose (sealed) implementers are pointer types, is nil or an object
+					f = fmt.Sprintf("(forall ((k_al Int)) (! (or (= (select (arr_%s %s) k_al) 0) (and (> (select (arr_%s %s) k_al) 0) (select %s (select (arr_%s %s) k_al)))) :pattern ((select (arr_%s %s) k_al))))", v.Sort, v.S, v.Sort, v.S, st.alloc, v.Sort, v.S, v.Sort, v.S)
+				}
 				key := "al|" + f
 				if !vc.rangeAsserted[key] {
 					vc.rangeAsserted[key] = true
@@ -103,6 +108,9 @@ func (vc *VC) assumeRefFacts(st *State, v Val) {
 	case *types.Interface:
 		vc.needDyntype()
 		f := fmt.Sprintf("(or (<= %s 0) (select %s %s))", v.S, st.alloc, v.S)
+		if vc.onlyPointers(v.Ty) {
+			f = fmt.Sprintf("(or (= %s 0) (and (> %s 0) (select %s %s)))", v.S, v.S, st.alloc, v.S)
+		}
 		vc.assume(st, f)
 		if impls := vc.eng.closedImplementers(v.Ty); impls != nil {
 			var ds []string
@@ -113,6 +121,29 @@ func (vc *VC) assumeRefFacts(st *State, v Val) {
 			vc.assume(st, "(or "+strings.Join(ds, " ")+")")
 		}
 	}
+}
+
+// onlyPointers: t is a pointer type, or a sealed interface whose implementers are all pointer types (its values are never boxed)
+func (vc *VC) onlyPointers(t types.Type) bool {
+	if os.Getenv("GOVC_NOONLYPTR") != "" {
+		return false
+	}
+	switch t.Underlying().(type) {
+	case *types.Pointer:
+		return true
+	case *types.Interface:
+		impls := vc.eng.closedImplementers(t)
+		if impls == nil {
+			return false
+		}
+		for _, it := range impls {
+			if _, ok := it.Underlying().(*types.Pointer); !ok {
+				return false
+			}
+		}
+		return true
+	}
+	return false
 }
 
 func (vc *VC) needDyntype() {
@@ -583,6 +614,18 @@ func (vc *VC) evalIndex(st *State, x *ast.IndexExpr) Val {
 	return vc.havocVal(st, vc.typeOf(x), "idx")
 }
 
+// beIdentity: the n bytes of the big-endian representation of v (0 <= v < 256^n) put together again give v. The identity is a
+// theorem of integer arithmetic (proved for n = 2, 4, 8 in /verif/lemmas, be<n>.smt2: cvc5 decides it, z3 does not), stated here
+// as a ground fact because the solvers do not find it inside a larger query.
+func (vc *VC) beIdentity(st *State, arr, v string, n int64) {
+	if n != 2 && n != 4 && n != 8 {
+		return
+	}
+	lim := new(big.Int).Exp(big.NewInt(256), big.NewInt(n), nil)
+	vc.assume(st, fmt.Sprintf("(=> (and (<= 0 %s) (< %s %s)) (= %s %s))", v, v, lim.String(), vc.beValue(arr, "0", n), v))
+	vc.noteAssumption("big-endian reconstruction identity for 2/4/8-byte values (proved in /verif/lemmas)")
+}
+
 func (vc *VC) byteOfBE(v, idx string, n int64) string {
 	// byte idx of an n-byte big-endian number v
 	var cases string
@@ -693,6 +736,7 @@ func (vc *VC) evalSliceExpr(st *State, x *ast.SliceExpr) Val {
 			for i := int64(0); i < u.Len(); i++ {
 				vc.assume(st, fmt.Sprintf("(= (select %s %d) %s)", arr, i, vc.byteOfBE(base.S, fmt.Sprint(i), u.Len())))
 			}
+			vc.beIdentity(st, arr, base.S, u.Len())
 			_ = es
 			sortS := vc.sortOf(types.NewSlice(u.Elem()))
 			org := vc.fresh("org", "Int")
@@ -719,6 +763,7 @@ func (vc *VC) evalSliceExpr(st *State, x *ast.SliceExpr) Val {
 				for i := int64(0); i < a.Len(); i++ {
 					vc.assume(st, fmt.Sprintf("(= (select %s %d) %s)", arr, i, vc.byteOfBE(av.S, fmt.Sprint(i), a.Len())))
 				}
+				vc.beIdentity(st, arr, av.S, a.Len())
 				return mkSlice(sortS, arr, fmt.Sprint(a.Len()), org, a.Elem(), "")
 			}
 			return mkSlice(sortS, av.S, fmt.Sprint(a.Len()), org, a.Elem(), "")
@@ -762,6 +807,7 @@ func (vc *VC) evalUnary(st *State, x *ast.UnaryExpr) Val {
 			vc.noteAssumption(fmt.Sprintf("channel receive #%d in %s: value unconstrained except for the contract's recv-assume clause", vc.recvOrd, vc.fn.Key))
 			return vc.havocVal(st, vc.typeOf(x), "recv")
 		}
+		vc.cutState = st
 		vc.concurrency(x.Pos(), "channel receive")
 		return vc.havocVal(st, vc.typeOf(x), "recv")
 	}
